@@ -48,3 +48,119 @@ Proof.
   intros [q k] Hp. apply S in Hp. destruct Hp as (i & x' & y' & mn & mx & A & B & C & D & F & G).
   destruct (inner_at_generated (q, k)) as (I1 & I2). rewrite I1, I2. cbn [fst snd]. exists i, x', y', mn, mx. tauto.
 Qed.
+
+(* ====================================================================================================== *)
+(* int64: the claim "the theorems about the unbounded model transfer to the Go encoder for quadkey zooms <= 31, and not beyond" as theorems
+   over the regenerated int64 kernels (SIDGen.Generated64: Go's wrap-around of + and *, the lost bits of <<, explicit). The loop structure
+   around the kernels (`for cond { step }`, X loop then Y loop, both starting at i = 0) is written here by hand: `loop64` / `encode64`. *)
+From SIDGen Require Generated64.
+From SID Require Import I64.
+From SID Require GenEq64Tac GenEq64Quadkey.
+
+Section Loop64.
+  Variables (cond64 : Z -> Z -> Z -> Z -> M bool) (step64 : Z -> Z -> Z -> Z -> M (Z * Z * Z)).
+  (* `for ; cond(quadkey, i, t, hZoom); { (quadkey, i, t) = step(...) }` — at most `fuel` iterations *)
+  Fixpoint loop64 (fuel : nat) (q i t h : Z) : M Z :=
+    match fuel with
+    | O => ret q
+    | S f => bind (cond64 q i t h) (fun c =>
+               if c then bind (step64 q i t h) (fun r => let '(q', i', t') := r in loop64 f q' i' t' h) else ret q)
+    end.
+
+  Variables (mul : Z) (condG : Z -> Z -> Z -> Z -> bool) (stepG : Z -> Z -> Z -> Z -> Z * Z * Z).
+  Hypothesis Hm : mul = 1 \/ mul = 2.
+  Hypothesis Hc : forall q i t h, cond64 q i t h = ret (condG q i t h).
+  Hypothesis Hcond : forall q i t h, condG q i t h = (0 <? t) && (i <? h).
+  Hypothesis Hs : forall q i t h, 0 <= i <= 30 -> 0 <= t < 2 ^ 63 -> 0 <= q <= 2 ^ 62 -> step64 q i t h = Some (stepG q i t h, true).
+  Hypothesis Hv : forall q i t h, stepG q i t h = (q + Z.shiftl (Z.rem t 2 * mul) (i * 2), i + 1, Z.quot t 2).
+  Hypothesis Hl : forall f i h t q, loopbits (S f) i h t mul q =
+    if condG q i t h then let '(q', i', t') := stepG q i t h in loopbits f i' h t' mul q' else q.
+
+  (* invariant 3 q <= C + mul (4^i - 1): the key so far never exceeds 2^61 while a step can still run (zoom <= 31) *)
+  Lemma loop64_fits : forall fuel q i t h C, 0 <= i -> Z.of_nat fuel = h - i -> h <= 31 -> 0 <= t < 2 ^ 63 -> 0 <= q ->
+    0 <= C <= 4 ^ 31 - 1 -> 3 * q <= C + mul * (4 ^ i - 1) ->
+    loop64 fuel q i t h = ret (loopbits fuel i h t mul q) /\
+    0 <= loopbits fuel i h t mul q /\ 3 * loopbits fuel i h t mul q <= C + mul * (4 ^ h - 1).
+  Proof.
+    assert (E31 : 4 ^ 31 = 4611686018427387904) by reflexivity.
+    assert (E30 : 4 ^ 30 = 1152921504606846976) by reflexivity.
+    assert (E62 : 2 ^ 62 = 4611686018427387904) by reflexivity.
+    assert (E63 : 2 ^ 63 = 9223372036854775808) by reflexivity.
+    induction fuel as [|f IH]; intros q i t h C Hi Hf Hh Ht Hq HC Hinv.
+    - cbn [loop64 loopbits]. replace h with i by lia. auto.
+    - assert (Hih : i <= h) by lia.
+      assert (Pi : 1 <= 4 ^ i) by (apply (Z.pow_le_mono_r 4 0 i); lia).
+      assert (Ph : 4 ^ i <= 4 ^ h) by (apply Z.pow_le_mono_r; lia).
+      cbn [loop64]. rewrite Hc, bind_ret_l, Hl, Hcond.
+      destruct (Z.ltb_spec 0 t) as [Htp|Htz]; [destruct (Z.ltb_spec i h) as [Hlt|Hge]|]; cbn [andb].
+      + assert (P30 : 4 ^ i <= 4 ^ 30) by (apply Z.pow_le_mono_r; lia).
+        rewrite Hs by (destruct Hm; subst mul; lia). rewrite (bind_ok _ _ (stepG q i t h) eq_refl). rewrite Hv.
+        pose proof (GenEq64Quadkey.rem2_bounds t ltac:(lia)) as Hr.
+        assert (Hd : 0 <= Z.quot t 2 <= t) by (split; [apply Z.quot_pos; lia | apply Z.quot_le_upper_bound; lia]).
+        assert (Es : Z.shiftl (Z.rem t 2 * mul) (i * 2) = Z.rem t 2 * mul * 4 ^ i) by (rewrite Z.shiftl_mul_pow2, pow4 by lia; reflexivity).
+        assert (P1 : 4 ^ (i + 1) = 4 * 4 ^ i) by (rewrite Z.pow_add_r by lia; change (4 ^ 1) with 4; ring).
+        assert (Hb : Z.rem t 2 = 0 \/ Z.rem t 2 = 1) by lia.
+        apply IH; try lia; rewrite ?Es, ?P1; destruct Hb as [Hb | Hb]; rewrite ?Hb; destruct Hm; subst mul; lia.
+      + split; [reflexivity|]. split; [exact Hq|]. destruct Hm; subst mul; lia.
+      + split; [reflexivity|]. split; [exact Hq|]. destruct Hm; subst mul; lia.
+  Qed.
+End Loop64.
+
+(* convertHorizontalIDToQuadkey after its string parsing, over the generated int64 kernels: the X loop, then the Y loop *)
+Definition encode64 (h x y : Z) : M Z :=
+  bind (loop64 Generated64.convertHorizontalIDToQuadkey_condX Generated64.convertHorizontalIDToQuadkey_stepX (Z.to_nat h) 0 0 x h)
+       (fun q1 => loop64 Generated64.convertHorizontalIDToQuadkey_condY Generated64.convertHorizontalIDToQuadkey_stepY (Z.to_nat h) q1 0 y h).
+
+Lemma condX_is q i t h : Generated.convertHorizontalIDToQuadkey_condX q i t h = (0 <? t) && (i <? h).
+Proof. repeat autounfold with sidgen. now rewrite Z.gtb_ltb. Qed.
+Lemma condY_is q i t h : Generated.convertHorizontalIDToQuadkey_condY q i t h = (0 <? t) && (i <? h).
+Proof. repeat autounfold with sidgen. now rewrite Z.gtb_ltb. Qed.
+Lemma stepX_is q i t h : Generated.convertHorizontalIDToQuadkey_stepX q i t h = (q + Z.shiftl (Z.rem t 2 * 1) (i * 2), i + 1, Z.quot t 2).
+Proof. repeat autounfold with sidgen. cbv zeta. now rewrite Z.mul_1_r. Qed.
+Lemma stepY_is q i t h : Generated.convertHorizontalIDToQuadkey_stepY q i t h = (q + Z.shiftl (Z.rem t 2 * 2) (i * 2), i + 1, Z.quot t 2).
+Proof. repeat autounfold with sidgen. cbv zeta. reflexivity. Qed.
+
+(* for every quadkey zoom 0..31 and all non-negative int64 indices (inside the grid or not) the int64 computation never leaves the range and
+   returns the unbounded model's key: on this domain "int64 = Z" is a theorem about the regenerated kernels, not an assumption *)
+Theorem encode64_fits h x y : 0 <= h <= 31 -> 0 <= x < 2 ^ 63 -> 0 <= y < 2 ^ 63 -> encode64 h x y = Some (encode h x y, true).
+Proof.
+  intros Hh Hx Hy. unfold encode64, encode.
+  destruct (loop64_fits _ _ 1 _ _ (or_introl eq_refl) GenEq64Quadkey.gen64_convertHorizontalIDToQuadkey_condX_eq condX_is
+              GenEq64Quadkey.gen64_convertHorizontalIDToQuadkey_stepX_fits stepX_is GenEq64Quadkey.loopbits_over_generated_stepX
+              (Z.to_nat h) 0 0 x h 0) as (E1 & P1 & B1); try lia.
+  all: try (assert (4 ^ 31 = 4611686018427387904) by reflexivity; change (4 ^ 0) with 1; lia).
+  rewrite E1, bind_ret_l. set (q1 := loopbits (Z.to_nat h) 0 h x 1 0) in *.
+  assert (P31 : 4 ^ h <= 4 ^ 31) by (apply Z.pow_le_mono_r; lia).
+  destruct (loop64_fits _ _ 2 _ _ (or_intror eq_refl) GenEq64Quadkey.gen64_convertHorizontalIDToQuadkey_condY_eq condY_is
+              GenEq64Quadkey.gen64_convertHorizontalIDToQuadkey_stepY_fits stepY_is GenEq64Quadkey.loopbits_over_generated_stepY
+              (Z.to_nat h) q1 0 y h (4 ^ h - 1)) as (E2 & _ & _); try lia.
+  all: try (assert (1 <= 4 ^ h) by (apply (Z.pow_le_mono_r 4 0 h); lia); change (4 ^ 0) with 1; lia).
+  exact E2.
+Qed.
+(* hence, for the tiles of the property's quantifier, Go's int64 result is the interleaving *)
+Theorem encode64_is_interleaving h x y : 1 <= h <= 31 -> 0 <= x < 2 ^ h -> 0 <= y < 2 ^ h ->
+  fits (encode64 h x y) = true /\ go_value (encode64 h x y) = Some (interleave h x y).
+Proof.
+  intros Hh Hx Hy.
+  assert (P : 2 ^ h <= 2 ^ 31) by (apply Z.pow_le_mono_r; lia). assert (E : 2 ^ 31 < 2 ^ 63) by reflexivity.
+  rewrite encode64_fits by lia. cbn [fits go_value]. rewrite encode_interleave by lia. auto.
+Qed.
+(* and not beyond: at zoom 32 the tile (0, 2^31) — the first zoom whose y bit reaches level 31 — makes the generated Y step shift a bit out of
+   the range: Go's key is MinInt64 and flagged inexact, the unbounded model's is 2^63 *)
+Theorem encode64_wraps_at_zoom_32 :
+  encode64 32 0 (2 ^ 31) = Some (- 2 ^ 63, false) /\ encode 32 0 (2 ^ 31) = 2 ^ 63 /\
+  Generated64.convertHorizontalIDToQuadkey_stepY 0 31 1 32 = Some ((- 2 ^ 63, 32, 0), false).
+Proof. split; [vm_compute; reflexivity|]. split; [vm_compute; reflexivity|]. exact (proj1 GenEq64Quadkey.stepY_wraps_at_zoom_32). Qed.
+(* whenever an int64 step reports no overflow it is the unbounded step (bridge lemmas of the translator) *)
+Theorem step64_exact : forall q i t h r,
+  (Generated64.convertHorizontalIDToQuadkey_stepX q i t h = Some (r, true) -> r = Generated.convertHorizontalIDToQuadkey_stepX q i t h) /\
+  (Generated64.convertHorizontalIDToQuadkey_stepY q i t h = Some (r, true) -> r = Generated.convertHorizontalIDToQuadkey_stepY q i t h).
+Proof.
+  intros. split; [apply GenEq64Quadkey.gen64_convertHorizontalIDToQuadkey_stepX_exact | apply GenEq64Quadkey.gen64_convertHorizontalIDToQuadkey_stepY_exact].
+Qed.
+(* the zoom check in int64 mode: no arithmetic, never inexact, and it is the model's window *)
+Theorem qcheck64 h v : Generated64.quadkeyCheckZoom h v = ret (qcheck h v).
+Proof.
+  rewrite GenEq64Tac.gen64_quadkeyCheckZoom_eq, GenEqCheck.gen_quadkeyCheckZoom_eq. unfold qcheck, Ids.check_zoom.
+  now rewrite !andb_assoc.
+Qed.
